@@ -929,6 +929,16 @@ fn drive_lengths(sink: &mut Sink, _rng: &mut Rng, n: usize) {
             }
         }
     }
+    // 0..=40 namespace / subpath segments (and as many again written as empty or dot pieces)
+    for n in 0..=40usize {
+        let segs: Vec<String> = (0..n).map(|i| format!("s{}", i)).collect();
+        let ns = segs.join("/");
+        let noisy = segs.iter().map(|x| format!("{}//./", x)).collect::<String>();
+        parse_all(sink, &format!("pkg:t/{}{}n", ns, if n > 0 { "/" } else { "" }));
+        parse_all(sink, &format!("pkg:t/n#{}", ns));
+        parse_all(sink, &format!("pkg:t/n#{}", noisy));
+        parse_all(sink, &format!("pkg:golang/{}/n@v1#{}", noisy.replace("./", ""), noisy));
+    }
     // 0..=40 qualifiers, in descending key order in the input
     for n in 0..=40usize {
         let quals: Vec<String> = (0..n).rev().map(|i| format!("k{:02}=v{}", i, i)).collect();
